@@ -500,7 +500,7 @@ var rlBaseDenoms = []string{"uaaa", "ubbb"}
 type rlGen struct {
 	r       *Rng
 	do      func(M) any
-	denoms  []string           // rate-limiter denoms in play
+	denoms  []string // rate-limiter denoms in play
 	supply  map[string]*big.Int
 	sendSeq map[string]uint64
 	recvSeq map[string]uint64
@@ -901,9 +901,10 @@ func (g *rlGen) history(nops int) {
 
 func init() {
 	Register(Engine{
-		Name:  "ratelimit",
-		Props: []string{"C41"},
-		New:   func() Executor { return newRlExec() },
+		Name:    "ratelimit",
+		Props:   []string{"C41"},
+		New:     func() Executor { return newRlExec() },
+		Monitor: rlMonitor,
 		Gen: func(r *Rng, n int, do func(M) any) {
 			g := &rlGen{r: r, do: do}
 			for i := 0; i < n; i++ {
